@@ -422,7 +422,11 @@ func (w *World) Prelude() string {
 	sb.WriteString("(declare-datatypes ((Slice 0)) (((mk-slice (sbase Loc) (soff (_ BitVec 64)) (slen (_ BitVec 64)) (scap (_ BitVec 64))))))\n")
 	sb.WriteString("(declare-datatypes ((Iface 0)) (((mk-iface (itype Int) (iptr Loc) (inum (_ BitVec 64))))))\n")
 	sb.WriteString("(define-fun rootIsNew0 ((l Loc)) Bool ((_ is New) l))\n")
-	for d := 1; d <= 3; d++ {
+	sb.WriteString("(define-fun newId0 ((l Loc)) Int (ite ((_ is New) l) (nid l) (- 1)))\n")
+	for d := 1; d <= 6; d++ {
+		fmt.Fprintf(&sb, "(define-fun newId%d ((l Loc)) Int (ite ((_ is New) l) (nid l) (ite ((_ is Fld) l) (newId%d (fbase l)) (ite ((_ is Elem) l) (newId%d (ebase l)) (- 1)))))\n", d, d-1, d-1)
+	}
+	for d := 1; d <= 6; d++ {
 		fmt.Fprintf(&sb, "(define-fun rootIsNew%d ((l Loc)) Bool (or ((_ is New) l) (and ((_ is Fld) l) (rootIsNew%d (fbase l))) (and ((_ is Elem) l) (rootIsNew%d (ebase l)))))\n", d, d-1, d-1)
 	}
 	// struct datatypes in dependency order (a struct is registered after its
